@@ -85,6 +85,12 @@ class MapIter(Opaque):
                     raise Unsupported('drop of drain iterator with symbolic presence')
 
 
+class RangeAdapt(Opaque):
+    """Range<int>.map(f) / .filter(f) / .filter_map(f): the range is advanced and the closure called on demand"""
+    def __init__(self, rng, kind, clo):
+        self.rng, self.kind, self.clo, self.steps = rng, kind, clo, 0
+
+
 class ListVal(Opaque):
     """Vec<T> for T other than u8: a concrete-length list of cells (lengths never depend on symbolic data except through forks)"""
     def __init__(self, items=None, name='vec'):
@@ -353,6 +359,51 @@ def common_summaries():
                 outs.append((s, mk_option(Int(l0.bv, l0.width, False))))
             else:
                 outs.append((s, mk_option()))
+        return outs
+
+    # ---------------- Range<int> behind map / filter / filter_map
+    @reg(r'^<(std::ops::)?Range<(usize|u64|u32|u16|u8)> as Iterator>::(filter_map|map|filter)::<')
+    def range_adapt(ex, st, fn, argv):
+        kind = re.search(r'as Iterator>::(filter_map|map|filter)::<', fn).group(1)
+        return [(st, RangeAdapt(argv[0], kind, argv[1]))]
+
+    @reg(r'^<(std::iter::)?(FilterMap|Map|Filter)<(std::ops::)?Range<.*>, .*> as Iterator>::next$|^__verif::range_adapt_next$')
+    def range_adapt_next(ex, st, fn, argv):
+        it = deref(ex, st, argv[0])
+        if not isinstance(it, RangeAdapt):
+            return NotImplemented
+        it.steps += 1
+        if it.steps > ex.unwind:
+            return [(st, Panic(f'UNWIND-BOUND in iterator adaptor over a range (more than {ex.unwind} elements)', 'bound'))]
+        outs = []
+        for (s, c, more) in ex.fork_on(st, z3.ULT(it.rng.fields[0].bv, it.rng.fields[1].bv), argv):
+            if not more:
+                outs.append((s, mk_option()))
+                continue
+            it2 = deref(ex, s, c[0])
+            v = it2.rng.fields[0]
+            it2.rng.fields[0] = Int(v.bv + 1, v.width, False)
+            elem = Int(v.bv, v.width, False)
+            kind = it2.kind
+
+            def post(ex_, st_, rv, itref=c[0], elem=elem, kind=kind):
+                if kind == 'map':
+                    return mk_option(rv)
+                return ('REDISPATCH', '__verif::range_adapt_after', [itref, rv, elem])
+            outs.append((s, ('CALL', it2.clo, [Ref(Cell(elem, 'elem')) if kind == 'filter' else elem], ('custom', post))))
+        return outs
+
+    @reg(r'^__verif::range_adapt_after$')
+    def range_adapt_after(ex, st, fn, argv):
+        itref, rv, elem = argv
+        kind = deref(ex, st, itref).kind
+        cond = as_enum(ex, st, rv).disc_bv() == 1 if kind == 'filter_map' else rv.b
+        outs = []
+        for (s, c, keep) in ex.fork_on(st, cond, (itref, rv, elem)):
+            if keep:
+                outs.append((s, c[1] if kind == 'filter_map' else mk_option(c[2])))
+            else:
+                outs += range_adapt_next(ex, s, '__verif::range_adapt_next', [c[0]])
         return outs
 
     # ---------------- Vec<T> (T != u8): concrete-length lists
